@@ -33,7 +33,7 @@ func refLength(flat []float64, off, end, stride int, acc float64) float64 {
 // left-to-right sum of the per-ring reference expressions.
 func HC09_TotalMultiPolygon() {
 	lay := AnyLayout("lay", Layouts)
-	P, R, C := sym.Pick(2, 3), 2, sym.Pick(2, 3)
+	P, R, C := 3, 2, sym.Pick(2, 3)
 	sym.Bound("polygons", P)
 	sym.Bound("rings", R)
 	sym.Bound("coords", C)
